@@ -256,7 +256,7 @@ class PairHooks(A.Hooks):
         return None
 
 
-def semantic_pairing(m, fn):
+def semantic_pairing(m, fn, follow=None):
     """(net, lowest) of context pushes and pops per path of `fn`, interpreted with a recording context; None when not determined."""
     import itertools
     flags = []
@@ -270,12 +270,13 @@ def semantic_pairing(m, fn):
     result = set()
     for combo in itertools.product((False, True), repeat=min(len(flags), 3)):
         ctx = A.Obj('context', {'push': A.Sym('extfunc:context.push', truthy=True), 'pop': A.Sym('extfunc:context.pop', truthy=True),
-                                'append': A.Sym('extfunc:context.append', truthy=True)})
+                                'append': A.Sym('extfunc:context.append', truthy=True), 'top': A.Sym('frame', truthy=True)},
+                    cls=m.cls('plasTeX.Context', 'Context'))        # (private helpers of Context - context managers - are interpreted on it)
         doc = A.Obj('document', {'context': ctx})
         me = A.Obj('macro', {'ownerDocument': doc}, cls=fn.cls) if fn.cls is not None else None
         h = PairHooks(m, fn.cls)
-        h.should_inline = A.private_only
-        it = A.Interp(model=m, scope=fn, hooks=h, max_iter=2, exc_edges=False, inline=4, heap=True, precise_exc=False, max_states=4000)
+        h.should_inline = (lambda fname, node, info: A.private_only(fname, node, info) or follow(fname, node, info)) if follow else A.private_only
+        it = A.Interp(model=m, scope=fn, hooks=h, max_iter=2, exc_edges=False, inline=4, heap=True, precise_exc=True, max_states=4000)
         env = {'tex': A.Sym('tex', truthy=True)}
         if me is not None:
             env['self'] = me
@@ -378,12 +379,14 @@ def r41(chk, m):
         allowed, why = ent
         extra = sorted(set(normal) - allowed)
         missing = sorted(allowed - set(normal))
-        if (extra or missing) and indirection(name):
+        sem = None
+        if extra or missing:
             sem = semantic_pairing(m, fn)
             A.IMPRECISION[:] = []
             if sem is not None and sem == allowed:
-                chk.ok(R, name, '%s (interpreted with a recording context: the callees are computed): %s' % (sorted(sem), why))
+                chk.ok(R, name, '%s (interpreted with a recording context): %s' % (sorted(sem), why))
                 continue
+        if (extra or missing) and indirection(name):
             chk.undecided(R, name, '%s calls through computed callees (%s): its effect on the context stack is not determined by the structural rule'
                           % (name, '; '.join(indirection(name)[:3])), chk.where(fn))
             continue
@@ -394,12 +397,12 @@ def r41(chk, m):
                     chk.where(fn), '%s: %s' % (sorted(normal), why))
     missing = sorted(set(PAIRING) - eff)
     for name in missing:
+        sem = semantic_pairing(m, byname[name]) if name in byname else None
+        A.IMPRECISION[:] = []
+        if sem is not None and sem == PAIRING[name][0]:
+            chk.ok(R, name, '%s (interpreted with a recording context): %s' % (sorted(sem), PAIRING[name][1]))
+            continue
         if indirection(name):
-            sem = semantic_pairing(m, byname[name]) if name in byname else None
-            A.IMPRECISION[:] = []
-            if sem is not None and sem == PAIRING[name][0]:
-                chk.ok(R, name, '%s (interpreted with a recording context: the callees are computed): %s' % (sorted(sem), PAIRING[name][1]))
-                continue
             chk.undecided(R, name, '%s calls through computed callees (%s): whether it still opens/closes its group is not determined by the '
                           'structural rule' % (name, '; '.join(indirection(name)[:3])), name)
             continue
